@@ -42,16 +42,20 @@ def gen_frame(rng):
   rows = []
   geos = [(f'c{i}', labels[0]) for i in range(n_c)] + [(f't{i}', labels[1]) for i in range(n_t)] + [(f'u{i}', labels[2]) for i in range(n_un)]
   noisy_geo = rng.choice([g for g, _ in geos[:n_c + n_t]]) if noisy_planted else None
+  tie = rng.random() < 0.3      # two geos of a group reporting identical numbers (counts, rounded values)
   for gi, (g, grp) in enumerate(geos):
     w = rng.randint(1, 6)
+    if tie and g in ('c1', 't1'):
+      w = w_prev
     for d in range(T):
       if g == noisy_geo:
         v = rng.choice([rng.randint(0, 900), 500 - 3 * base[d]]) if rng.random() < 0.8 else 7
       else:
-        v = w * base[d] + rng.randint(-6, 6)
+        v = w * base[d] + (0 if (tie and g in ('c0', 'c1', 't0', 't1')) else rng.randint(-6, 6))
       if out_day is not None and d == out_day and g == 't0':
         v += out_size
       rows.append([g, d, grp, 0 if d < n_pre else 1, int(v)])
+    w_prev = w
   rng.shuffle(rows)
   return {'rows': rows, 'dup_index': rng.choice([None, None, 7, 50]), 'labels': list(labels), 'names': names, 'n_pre': n_pre, 'noisy_planted': noisy_geo, 'outlier_planted': out_day}
 
